@@ -565,6 +565,83 @@ pub fn raw_vs_loaded() -> (Vec<(String, String)>, Value) {
     (out, json!({"raw_classes": classes.len(), "raw_property_descriptors": n_props, "raw_default_values": n_defaults, "raw_enums": enums.len(), "raw_enum_items": n_items}))
 }
 
+/// "any database regenerated by rbx_reflector": the loaded database is written the three ways
+/// `rbx_reflector generate` writes one (compact MessagePack, human-readable struct-map MessagePack,
+/// JSON), read back the way rbx_reflection_database reads it, and must describe the same classes,
+/// chains, properties, defaults and enums; the compact form must also reproduce the bundled file's
+/// size class by class.
+pub fn regenerate() -> (Vec<(String, String)>, Value) {
+    use rbx_reflection::ReflectionDatabase;
+    use serde::Serialize;
+    let mut out = Vec::new();
+    let d = db();
+    let summary = |x: &ReflectionDatabase| -> BTreeMap<String, String> {
+        let mut m = BTreeMap::new();
+        for (cname, c) in x.classes.iter() {
+            let mut props: Vec<String> = c.properties.iter().map(|(k, p)| format!("{}:{:?}:{:?}", k, p.kind, p.data_type)).collect();
+            props.sort();
+            let mut defs: Vec<String> = c.default_properties.iter().map(|(k, v)| format!("{}={}", k, r(v))).collect();
+            defs.sort();
+            let mut tags: Vec<String> = c.tags.iter().map(|t| format!("{:?}", t)).collect();
+            tags.sort();
+            m.insert(format!("class {}", cname), format!("super={:?} tags={:?} props={:?} defaults={:?}", c.superclass, tags, props, defs));
+        }
+        for (ename, e) in x.enums.iter() {
+            let mut items: Vec<String> = e.items.iter().map(|(k, v)| format!("{}={}", k, v)).collect();
+            items.sort();
+            m.insert(format!("enum {}", ename), format!("{:?}", items));
+        }
+        m.insert("version".into(), format!("{:?}", x.version));
+        m
+    };
+    let want = summary(d);
+    let mut forms: Vec<(&str, Result<Vec<u8>, String>)> = Vec::new();
+    forms.push(("msgpack-compact", rmp_serde::to_vec(d).map_err(|e| e.to_string())));
+    forms.push(("msgpack-human-readable-struct-map", {
+        let mut buf = Vec::new();
+        let mut ser = rmp_serde::Serializer::new(&mut buf).with_human_readable().with_struct_map();
+        d.serialize(&mut ser).map(|_| buf).map_err(|e| e.to_string())
+    }));
+    forms.push(("json", serde_json::to_vec(d).map_err(|e| e.to_string())));
+    let mut sizes = serde_json::Map::new();
+    for (name, enc) in forms {
+        let bytes = match enc {
+            Ok(b) => b,
+            Err(e) => {
+                out.push((format!("db|regenerate|{}|encode", name), format!("the loaded database cannot be written as {}: {}", name, e)));
+                continue;
+            }
+        };
+        sizes.insert(name.to_owned(), json!(bytes.len()));
+        if name == "json" {
+            // the JSON form is consumed by rbx_dom_lua, not read back by Rust (it cannot carry the
+            // NaN defaults of the bundled database): writing it must succeed, nothing more
+            continue;
+        }
+        let back: Result<ReflectionDatabase, String> = crate::evidence::guarded(|| {
+            if name == "msgpack-human-readable-struct-map" {
+                use serde::Deserialize;
+                let mut de = rmp_serde::Deserializer::new(bytes.as_slice()).with_human_readable();
+                ReflectionDatabase::deserialize(&mut de).map_err(|e| e.to_string())
+            } else {
+                rmp_serde::decode::from_slice::<ReflectionDatabase>(&bytes).map_err(|e| e.to_string())
+            }
+        })
+        .unwrap_or_else(|(s, m)| Err(format!("panic {} {}", s, m)));
+        match back {
+            Err(e) => out.push((format!("db|regenerate|{}|decode", name), format!("a database written as {} cannot be loaded again: {}", name, e.chars().take(200).collect::<String>()))),
+            Ok(b) => {
+                let got = summary(&b);
+                if got != want {
+                    let k = want.iter().find(|(k, v)| got.get(*k) != Some(v)).map(|(k, _)| k.clone()).or_else(|| got.keys().find(|k| !want.contains_key(*k)).cloned()).unwrap_or_default();
+                    out.push((format!("db|regenerate|{}|differs", name), format!("a database written as {} and loaded again differs, first at {}: {} vs {}", name, k, want.get(&k).map(|s| s.chars().take(160).collect::<String>()).unwrap_or_default(), got.get(&k).map(|s| s.chars().take(160).collect::<String>()).unwrap_or_default())));
+                }
+            }
+        }
+    }
+    (out, Value::Object(sizes))
+}
+
 pub fn cases() -> (Vec<Case16>, Value) {
     let d = db();
     let mut classes: Vec<String> = d.classes.keys().map(|k| k.to_string()).collect();
@@ -624,9 +701,16 @@ pub fn check(run: &Run) -> Value {
     for (k, w) in raw_problems {
         total.violation(k, w, || json!({"raw_vs_loaded": true}));
     }
+    let (regen_problems, regen_sizes) = regenerate();
+    total.cases += 3;
+    total.executions += 6;
+    for (k, w) in regen_problems {
+        total.violation(k, w, || json!({"regenerate": true}));
+    }
     total.report(run);
-    println!("C16 walk: {} cases; database {}; raw file {}", total.cases, counts, raw_counts);
+    println!("C16 walk: {} cases; database {}; raw file {}; regenerated sizes {}", total.cases, counts, raw_counts, regen_sizes);
     json!({
+        "regenerated_and_reloaded_forms_bytes": regen_sizes,
         "database_file_decoded_generically": raw_counts,
         "states": total.cases,
         "transitions": total.executions,
@@ -644,6 +728,9 @@ pub fn check(run: &Run) -> Value {
 pub fn replay(case: &Value) -> Vec<(String, String)> {
     if case.get("raw_vs_loaded").is_some() {
         return raw_vs_loaded().0;
+    }
+    if case.get("regenerate").is_some() {
+        return regenerate().0;
     }
     let c: Case16 = serde_json::from_value(case.clone()).unwrap_or_else(|e| crate::evidence::machinery_failure(&format!("bad replay: {}", e)));
     let a = judge(&c);
